@@ -1263,8 +1263,147 @@ Plan gen_sweep_plan(const std::string &property, const std::string &profile, uin
     return p;
 }
 
+// ownsweep (C12): every sequence of a bounded length over a 20-symbol alphabet of ownership
+// operations on two slots, for a handful of representative stacks. The first operation is
+// always Construct(slot 0); quick: 3 further operations, thorough: 4.
+const char *const OWN_STACKS[] = {"strided_s2_f2", "mortonb_s2_f2", "arr_f3", "aff_lin_strided_s3_f3", "clamp_strided_s2_f2", "hilbert_s2_f2"};
+constexpr int OWN_ALPHABET = 20;
+std::vector<int> own_stacks(const Disabled &dis)
+{
+    std::vector<int> v;
+    for (const char *id : OWN_STACKS) {
+        int s = stack_by_id(id);
+        if (s >= 0 && !dis.core(g_stacks[s]))
+            v.push_back(s);
+    }
+    return v;
+}
+uint64_t own_total(bool thorough, const Disabled &dis)
+{
+    return (uint64_t)own_stacks(dis).size() * ipow_u(OWN_ALPHABET, thorough ? 4 : 3);
+}
+Plan gen_own_plan(const std::string &property, uint64_t seed, uint64_t index, bool thorough, const Disabled &dis)
+{
+    Plan p;
+    p.property = property;
+    p.profile = "ownsweep";
+    p.seed = seed;
+    Rng rk(seed);
+    p.nslots = 2;
+    p.getbuf = 64;
+    p.putbuf = 64;
+    p.vmode = VAL_ANY;
+    auto st = own_stacks(dis);
+    int len = thorough ? 4 : 3;
+    uint64_t per = ipow_u(OWN_ALPHABET, len);
+    if (st.empty())
+        return p;
+    index %= per * st.size();
+    int stack = st[index / per];
+    uint64_t code = index % per;
+    const StackDesc &d = g_stacks[stack];
+    std::vector<size_t> extA(d.N), extB(d.N);
+    for (int k = 0; k < d.N; ++k) {
+        extA[k] = (size_t)(2 + k % 2);
+        extB[k] = (size_t)(3 - k % 2);
+    }
+    auto mk = [&](int kind, int a, int b) {
+        Op op;
+        op.kind = kind;
+        op.a = a;
+        op.b = b;
+        op.vseed = rk.next() & 0xffffffffffffull;
+        return op;
+    };
+    auto construct = [&](int slot, const std::vector<size_t> &ext) {
+        Op op = mk(OP_CONSTRUCT, slot, 0);
+        op.stack = stack;
+        op.ext = ext;
+        return op;
+    };
+    p.ops.push_back(construct(0, extA));
+    for (int i = 0; i < len; ++i) {
+        int sym = (int)(code % OWN_ALPHABET);
+        code /= OWN_ALPHABET;
+        switch (sym) {
+        case 0:
+            p.ops.push_back(construct(0, extA));
+            break;
+        case 1:
+            p.ops.push_back(construct(1, extB));
+            break;
+        case 2:
+            p.ops.push_back(mk(OP_WRITE, 0, 0));
+            break;
+        case 3:
+            p.ops.push_back(mk(OP_WRITE, 1, 0));
+            break;
+        case 4:
+            p.ops.push_back(mk(OP_COPY_CTOR, 1, 0));
+            break;
+        case 5:
+            p.ops.push_back(mk(OP_COPY_CTOR, 0, 1));
+            break;
+        case 6:
+            p.ops.push_back(mk(OP_MOVE_CTOR, 1, 0));
+            break;
+        case 7:
+            p.ops.push_back(mk(OP_MOVE_CTOR, 0, 1));
+            break;
+        case 8:
+            p.ops.push_back(mk(OP_COPY_ASSIGN, 1, 0));
+            break;
+        case 9:
+            p.ops.push_back(mk(OP_COPY_ASSIGN, 0, 1));
+            break;
+        case 10:
+            p.ops.push_back(mk(OP_COPY_ASSIGN, 0, 0));
+            break;
+        case 11:
+            p.ops.push_back(mk(OP_MOVE_ASSIGN, 1, 0));
+            break;
+        case 12:
+            p.ops.push_back(mk(OP_MOVE_ASSIGN, 0, 1));
+            break;
+        case 13:
+            p.ops.push_back(mk(OP_MOVE_ASSIGN, 0, 0));
+            break;
+        case 14:
+            p.ops.push_back(mk(OP_DESTROY, 0, 0));
+            break;
+        case 15:
+            p.ops.push_back(mk(OP_DESTROY, 1, 0));
+            break;
+        case 16: {
+            Op op = mk(OP_DEFAULT, 1, 0);
+            op.stack = stack;
+            p.ops.push_back(op);
+            break;
+        }
+        case 17:
+            p.ops.push_back(mk(OP_DUMP, 0, 0));
+            break;
+        case 18: {
+            Op op = mk(OP_LOAD, 1, 0);
+            op.stack = -1;
+            p.ops.push_back(op);
+            break;
+        }
+        default: {
+            Op op = mk(OP_LOAD_ASSIGN, 0, 0);
+            op.stack = -1;
+            p.ops.push_back(op);
+            break;
+        }
+        }
+    }
+    return p;
+}
+
 Plan gen_plan(const std::string &property, const std::string &profile, uint64_t seed, bool thorough, const Disabled &dis, uint64_t index = 0)
 {
+    if (profile == "ownsweep")
+        return gen_own_plan(property, seed, index, thorough, dis);
     if (profile == "convsweep" || profile == "rtsweep")
         return gen_sweep_plan(property, profile, seed, index, thorough, dis);
     Plan p;
@@ -1767,7 +1906,10 @@ int main(int argc, char **argv)
     std::string label = property + "/" + profile;
     if (args.has("count-sweep")) {
         uint64_t total = 0;
-        sweep_items(profile, thorough, dis, total);
+        if (profile == "ownsweep")
+            total = own_total(thorough, dis);
+        else
+            sweep_items(profile, thorough, dis, total);
         std::printf("SWEEP %llu\n", (unsigned long long)total);
         return 0;
     }
